@@ -75,8 +75,20 @@ func (ex *Exec) mkBytes(st *State, name string, elems []Val, rest bool, restMin 
 func (ex *Exec) byteSym(name string) *IntV { return mkSym(ex.syms.Get(name, 8, false)) }
 
 // allocCell allocates a zeroed cell of type t and returns a pointer to it.
+// allocCell: an out-parameter cell. It holds an arbitrary STALE value (what the caller's variable held before: the result
+// of an earlier call, say), not the zero value: an accessor that reports success without storing to the cell is then seen
+// to hand back something other than what was encoded.
 func (ex *Exec) allocCell(st *State, t types.Type) *PtrV {
-	id := ex.newObj(st, ex.zeroOf(t), t)
+	var v Val
+	switch u := t.Underlying().(type) {
+	case *types.Basic:
+		v = ex.topOf(st, t, "stale")
+	case *types.Slice:
+		v = ex.unknownSlice(st, u.Elem(), "stale", 0)
+	default:
+		v = ex.zeroOf(t)
+	}
+	id := ex.newObj(st, v, t)
 	return &PtrV{Obj: id}
 }
 
@@ -319,4 +331,17 @@ func (st *State) beBytes(v *IntV, n int) []*IntV {
 		out[i] = st.Convert(x, 8, false)
 	}
 	return out
+}
+
+// newStaleObject: a receiver for a Parse-like method that has been used before — every field holds an arbitrary value
+// (what an earlier Parse left there), not the zero value: a parser that does not set a field on some path is seen to hand
+// back stale state.
+func (ex *Exec) newStaleObject(st *State, t types.Type) *PtrV {
+	p := ex.newZeroObject(st, t)
+	if sv, ok := st.heap[p.Obj].(*StructV); ok {
+		for i := 0; i < sv.T.NumFields(); i++ {
+			sv.Fields[i] = ex.topOf(st, sv.T.Field(i).Type(), "stale:"+sv.T.Field(i).Name())
+		}
+	}
+	return p
 }
